@@ -61,6 +61,9 @@ var (
 	Trace   []Point
 	// FullPermLimit: maps with at most this many keys offer all n! orders.
 	FullPermLimit = 4
+	// MapOrderChoices: map ranges are choice points (false: canonical order only,
+	// used when only scheduling choices are explored).
+	MapOrderChoices = true
 )
 
 // Begin starts one execution: resets counters, budgets and the choice trace.
@@ -103,7 +106,12 @@ func Tick() {
 
 // TickSpawned is used inside `go func(){..}` literals: it never panics
 // (a panic there cannot be recovered by the harness).
-func TickSpawned() { spawnedTicks.Add(1) }
+func TickSpawned() {
+	spawnedTicks.Add(1)
+	if s := sched; s != nil && s.virtual {
+		s.yield(nil)
+	}
+}
 
 func SpawnedTicks() int64 { return spawnedTicks.Load() }
 
@@ -115,6 +123,9 @@ func Cycle() {
 	}
 	if OnCycle != nil {
 		OnCycle()
+	}
+	if s := sched; s != nil && s.cycles {
+		s.yield(nil)
 	}
 }
 
@@ -138,6 +149,10 @@ func SpawnFailure() string {
 // Go replaces the `go` statement.
 func Go(f func()) {
 	Spawned.Add(1)
+	if s := sched; s != nil && s.virtual {
+		s.spawn(f)
+		return
+	}
 	go func() {
 		defer func() {
 			if r := recover(); r != nil {
@@ -157,6 +172,19 @@ func Go(f func()) {
 // execution a send that is still blocked when the execution ends makes the
 // goroutine exit (the consumer abandoned the iteration).
 func SendSpawned[T any](ch chan<- T, v T) {
+	if s := sched; s != nil && s.virtual {
+		c := s.vch(ch)
+		if c.cap == 0 {
+			// rendezvous: offer the value, continue once the receiver took it
+			s.yield(func() bool { return len(c.buf) == 0 })
+			c.buf = append(c.buf, v)
+			s.yield(func() bool { return len(c.buf) == 0 })
+			return
+		}
+		s.yield(func() bool { return len(c.buf) < c.cap })
+		c.buf = append(c.buf, v)
+		return
+	}
 	p := epoch.Load()
 	if p == nil {
 		ch <- v
@@ -317,7 +345,7 @@ func Order[K comparable, V any](m map[K]V) []K {
 		}
 		sort.SliceStable(keys, func(i, j int) bool { return encs[keys[i]] < encs[keys[j]] })
 	}
-	if !Explore {
+	if !Explore || !MapOrderChoices {
 		return keys
 	}
 	return Permute(keys, choose(n, NumAlts(n)))
@@ -366,4 +394,253 @@ type MSISnap struct {
 // MSISnapshotter is implemented by the CPUs of the MSI variants in verif builds.
 type MSISnapshotter interface {
 	VerifSnapshot() MSISnap
+}
+
+// ---------------------------------------------------------------- cooperative scheduler
+//
+// Used by C08: exactly one managed thread runs at a time; at every scheduling
+// point the next thread is an explicit, recorded choice (same Trace/Prefix
+// mechanism as map orders). Two modes:
+//   virtual  : goroutines spawned through Go() become managed threads and the
+//              channels they use are emulated (SendSpawned / CloseSpawned /
+//              Recv), TickSpawned is a scheduling point — iterator goroutines;
+//   cycles   : Cycle() is a scheduling point — two machines interleaved at
+//              cycle boundaries.
+
+type thread struct {
+	id     int
+	wake   chan struct{}
+	done   bool
+	canRun func() bool // nil = runnable
+}
+
+type scheduler struct {
+	threads  []*thread
+	cur      *thread
+	virtual  bool
+	cycles   bool
+	kill     chan struct{}
+	chans    map[uintptr]*vchan
+	deadlock bool
+	failure  string
+}
+
+type vchan struct {
+	buf    []any
+	cap    int
+	closed bool
+}
+
+var sched *scheduler
+
+type schedKilled struct{}
+
+// SchedRun runs the given thread bodies under the cooperative scheduler until
+// all of them have returned or no thread can run. bodies[0] runs on the
+// calling goroutine. It returns (deadlock, first panic message of a thread).
+func SchedRun(virtual, cycles bool, bodies ...func()) (deadlock bool, failure string) {
+	s := &scheduler{virtual: virtual, cycles: cycles, kill: make(chan struct{}), chans: map[uintptr]*vchan{}}
+	sched = s
+	defer func() {
+		sched = nil
+		close(s.kill)
+	}()
+	main := &thread{id: 0, wake: make(chan struct{}, 1)}
+	s.threads = append(s.threads, main)
+	s.cur = main
+	for i := 1; i < len(bodies); i++ {
+		s.spawn(bodies[i])
+	}
+	func() {
+		defer func() {
+			if r := recover(); r != nil {
+				if _, ok := r.(schedKilled); !ok {
+					if a, isAbort := r.(Abort); isAbort {
+						panic(a)
+					}
+					if s.failure == "" {
+						s.failure = fmt.Sprint(r)
+					}
+				}
+			}
+		}()
+		bodies[0]()
+	}()
+	main.done = true
+	// let the remaining threads finish (e.g. the second machine)
+	for !s.deadlock {
+		next := s.pick(false)
+		if next == nil {
+			break
+		}
+		s.cur = next
+		next.wake <- struct{}{}
+		<-main.wake
+	}
+	return s.deadlock, s.failure
+}
+
+func (s *scheduler) spawn(f func()) {
+	t := &thread{id: len(s.threads), wake: make(chan struct{}, 1)}
+	s.threads = append(s.threads, t)
+	go func() {
+		select {
+		case <-t.wake:
+		case <-s.kill:
+			return
+		}
+		defer func() {
+			if r := recover(); r != nil {
+				if _, ok := r.(schedKilled); ok {
+					return
+				}
+				if s.failure == "" {
+					s.failure = fmt.Sprint(r)
+				}
+			}
+			t.done = true
+			// hand the processor to somebody else; thread 0 drives the tail
+			next := s.pick(false)
+			if next == nil {
+				next = s.threads[0]
+			}
+			s.cur = next
+			next.wake <- struct{}{}
+		}()
+		f()
+	}()
+}
+
+// pick chooses the next thread among the enabled ones (the current one first
+// if it is still enabled, then ascending ids). includeCur=false when the
+// current thread cannot continue.
+func (s *scheduler) pick(includeCur bool) *thread {
+	var enabled []*thread
+	if includeCur && s.cur != nil && !s.cur.done {
+		enabled = append(enabled, s.cur)
+	}
+	for _, t := range s.threads {
+		if t == s.cur && includeCur {
+			continue
+		}
+		if t.done || (t == s.cur && !includeCur) {
+			continue
+		}
+		if t.canRun == nil || t.canRun() {
+			enabled = append(enabled, t)
+		}
+	}
+	if len(enabled) == 0 {
+		for _, t := range s.threads {
+			if !t.done && t != s.threads[0] {
+				// somebody is blocked forever; abandoned iterator goroutines are legal
+				// (the consumer broke out of the loop), so this is only a deadlock when
+				// thread 0 itself is blocked
+			}
+		}
+		return nil
+	}
+	if len(enabled) == 1 {
+		return enabled[0]
+	}
+	c := 0
+	if Explore {
+		c = choose(len(enabled), len(enabled))
+	}
+	return enabled[c]
+}
+
+func (s *scheduler) park(t *thread) {
+	select {
+	case <-t.wake:
+	case <-s.kill:
+		panic(schedKilled{})
+	}
+}
+
+// yield is a scheduling point for the current thread; canRun != nil means the
+// thread is blocked until canRun() holds.
+func (s *scheduler) yield(canRun func() bool) {
+	t := s.cur
+	t.canRun = canRun
+	for {
+		runnable := canRun == nil || canRun()
+		next := s.pick(runnable)
+		if next == nil {
+			if runnable {
+				t.canRun = nil
+				return
+			}
+			if t.id == 0 {
+				s.deadlock = true
+				panic(Abort{"deadlock", Ticks, Cycles})
+			}
+			// an iterator goroutine whose consumer abandoned the iteration stays
+			// blocked for good: a leak, not a deadlock of the simulator
+			// a blocked non-main thread with nobody else to run: give control back to thread 0's driver
+			s.cur = s.threads[0]
+			s.threads[0].wake <- struct{}{}
+			s.park(t)
+			continue
+		}
+		if next == t {
+			t.canRun = nil
+			return
+		}
+		s.cur = next
+		next.wake <- struct{}{}
+		s.park(t)
+		// woken up: we are current again
+		if canRun == nil || canRun() {
+			t.canRun = nil
+			return
+		}
+	}
+}
+
+// SchedYield is an explicit scheduling point (used by harness code).
+func SchedYield() {
+	if s := sched; s != nil {
+		s.yield(nil)
+	}
+}
+
+func (s *scheduler) vch(ch any) *vchan {
+	v := reflect.ValueOf(ch)
+	k := v.Pointer()
+	c := s.chans[k]
+	if c == nil {
+		c = &vchan{cap: v.Cap()}
+		s.chans[k] = c
+	}
+	return c
+}
+
+// Recv is the receive operation for harness code running under the scheduler;
+// outside the scheduler it is a plain receive.
+func Recv[T any](ch <-chan T) (T, bool) {
+	s := sched
+	if s == nil || !s.virtual {
+		v, ok := <-ch
+		return v, ok
+	}
+	c := s.vch(ch)
+	s.yield(func() bool { return len(c.buf) > 0 || c.closed })
+	var zero T
+	if len(c.buf) == 0 {
+		return zero, false
+	}
+	v := c.buf[0].(T)
+	c.buf = c.buf[1:]
+	return v, true
+}
+
+// CloseSpawned replaces close(ch) inside go-literals.
+func CloseSpawned[T any](ch chan T) {
+	if s := sched; s != nil && s.virtual {
+		s.yield(nil)
+		s.vch(ch).closed = true
+		return
+	}
+	close(ch)
 }
